@@ -161,6 +161,13 @@ def main():
                 assert under(l, n, g) == under(l, n, g0), (gname, n["id"], l["id"])
     out.append("UUnder == [n \\in AllNode |-> CASE " +
                " [] ".join("n = %s -> %s" % (tla_str(n["id"]), tla_set(l["id"] for l in LEAVES if under(l, n, g0))) for n in NODES) + "]")
+    def pres_parent(l):
+        for q in LEAVES:
+            if q["kind"] == "presence" and q is not l and len(q["elems"]) < len(l["elems"]) and l["elems"][:len(q["elems"])] == q["elems"]:
+                return q["id"]
+        return "-"
+    out.append("UPresenceParent == [l \\in AllLeaf |-> CASE " +
+               " [] ".join("l = %s -> %s" % (tla_str(l["id"]), tla_str(pres_parent(l))) for l in LEAVES) + "]")
     out.append("UStateLeaf == " + tla_set(l["id"] for l in LEAVES if l["state"]))
     for fam in fams:
         out.append("Fam_%s == %s" % (fam, tla_set(l["id"] for l in LEAVES if fam in l["fam"])))
